@@ -110,6 +110,17 @@ CLAIMED["C13"] = ("other",
     "Trusted: clang 14 front end; LLVM sroa/early-cse; irx; loops.py classes and the read-like function table; listed exceptions E-* with their reasons (printed in the evidence); strings and sentinel arrays are terminated, lists acyclic.",
     "static analysis: loop-termination classifier (induction-variable / ranking-function witnesses from SSA + branch facts), call-graph cycle check, allocation-size provenance via linear forms on LLVM IR (custom checker)", "DESIGN.md §3 C13, §2 E8")
 
+CLAIMED["C09"] = ("other",
+    "Abstract interpretation of the fully inlined init/read entry points of all 11 decoder units (12 decoder types, 14 method names): integer intervals with sign-split memory invariants, pointer regions with "
+    "sub-object (struct field / array) bounds, per-edge branch refinement, threshold widening with a descending phase, trip-count and lock-step bounds for counted loops, unit-wide field/array invariants "
+    "iterated to a fixed point, exact reads of constant tables. Contracts K1 (extra area and output buffer sizes from each decoder type's own initialiser; extra_size >= sizeof(state) checked) and K2 (input "
+    "callbacks write/return at most the requested length). About 4200 enumerated obligations: every load, store, memcpy/memset and callback write; ~96% machine-discharged, the rest under named assumptions with "
+    "checked support rules (A-tree: Huffman tree build invariant; A-bits: bit-reader fill level; A-lh1-tree / A-lh1-offset: the -lh1- adaptive tree and offset tables - NOT verified, stated plainly) and the pm1 "
+    "byte-decode trees discharged by an exhaustive table walk. 'No read returns more than asked' for the decoders is the K1-sized output buffer obligation; for lha_decoder_read it is C14.R2. "
+    "Found the -pm2- copy_decode overrun (fixed, repo commit 8a05b58). The suite decodes only encoder-produced streams; over-subscribed tables and out-of-range symbols never occur in it.",
+    "Trusted: clang 14 front end; LLVM sroa/inline/simplifycfg/early-cse; irx; sa/lhsa/range.py (soundness of the abstract domain); contracts K1/K2 on foreign code; the named assumptions printed in the evidence.",
+    "static analysis: abstract interpretation (intervals + pointer regions + relational trip-count bounds) over inlined LLVM IR with enumerated memory-safety obligations (custom checker)", "DESIGN.md §3 C09, §2 E3, Appendix C")
+
 NOT_APPLICABLE = {
     "C01": "decode exactness is an equality of runtime byte streams produced by table-driven Huffman state machines; no structural clause is a necessary condition the tests leave open (DESIGN §4)",
     "C02": "lock-step of the adaptive -lh1- tree with LZHUF is an equality over runtime symbol histories (tie-break order, rebuild threshold are value computations); not decidable by static analysis in reach (DESIGN §4)",
